@@ -1,5 +1,5 @@
 //@ module src/crypto/mod.rs
-//@ harness c01_remote_key_dispatch kind=proof tier=quick timeout=1200 covers=2
+//@ harness c01_remote_key_dispatch kind=bounded tier=quick timeout=1200 covers=2 bound="key data of 0..=40 bytes (every i32 key type); only the comparison with 32 matters"
 //@ harness c01_crypto_canary kind=canary tier=quick timeout=120
 //
 // C01 / C19 — RemotePublicKey::try_from(keys_proto::PublicKey): only a 32-byte Ed25519 key is ever accepted
